@@ -84,7 +84,9 @@ def run(ctx):
     for i in range(n):
         transport = rng.choice(["jws", "jws", "jwe"])
         claims = rand_claims(rng)
-        header_extra = rng.choice([{}, {"typ": "at+jwt"}, {"kid": "k1"}, {"cty": "x"}, {"typ": "JWT", "x5t": "abc"}])
+        header_extra = rng.choice([{}, {"typ": "at+jwt"}, {"kid": "k1"}, {"cty": "x"}, {"typ": "JWT", "x5t": "abc"},
+                                   # an explicit typ overrides the default verbatim - whatever its case or content
+                                   {"typ": "jwt"}, {"typ": "Jwt"}, {"typ": "JWT "}, {"typ": "jwT", "cty": "JWT"}, {"typ": "application/jwt"}])
         if transport == "jws":
             alg = rng.choice(J.ALL_ALGS)
             kn = J.ALG_KEYS[alg][0]
